@@ -210,8 +210,65 @@ def messages(sh, r, D, n_random):
         yield "STATP-1byte", "partial", D.GeckoPartialStatusBlockProtocolHandler.report_changes(FakeSock(), one, parms=parms), b"STATP\x01" + S(">H", one[0][0]) + one[0][1], ("partial", one)
 
 
+# requests and the peer's standing traffic only: a handler object that decodes a REPLY marks itself for
+# removal and is never offered a second datagram by either engine (single use by design)
 LONG_LIVED = {"AVERS", "CURCH", "SFILE", "STATU", "STATV", "GETWC", "REQRM", "UPDTS", "SPACK-key", "SPACK-set", "APING", "APING-resp"}
 PERSIST = {}
+_FOREIGN = {"n": 0, "verbs": None}
+
+
+def all_verbs():
+    """Every verb constant the protocol modules declare (incl. those no constructor builds)."""
+    import importlib
+    import pkgutil
+
+    import geckolib.driver.protocol as P
+
+    out = set()
+    for m in pkgutil.iter_modules(P.__path__):
+        mod = importlib.import_module(f"{P.__name__}.{m.name}")
+        for k, v in vars(mod).items():
+            if k.endswith("_VERB") and isinstance(v, bytes):
+                out.add(v)
+    return sorted(out)
+
+
+def _claims(px, msg, sender):
+    try:
+        return bool(px.can_handle(msg, sender))
+    except Exception:  # noqa
+        return False
+
+
+def foreign_traffic(sh, px, sender):
+    """Before every third decode on a long-lived handler: traffic of the other verbs this very
+    handler object claims (a peer's standing handler sees all of them, also verbs the library has no
+    constructor for), so that a decode does not depend on what the object handled before."""
+    _FOREIGN["n"] += 1
+    if _FOREIGN["n"] % 3:
+        return
+    if _FOREIGN["verbs"] is None:
+        _FOREIGN["verbs"] = all_verbs()
+    k = _FOREIGN["n"] // 3
+    mine = _FOREIGN.setdefault(type(px), None)
+    if mine is None:
+        # the verbs this handler object claims (asked once with a 1-byte payload)
+        mine = _FOREIGN[type(px)] = [v for v in _FOREIGN["verbs"] if _claims(px, v + b"\x01", sender)]
+    if not mine:
+        return
+    # one verb per visit, rotating, so that each of them is at some time the LAST thing handled; the
+    # payload length a verb nobody builds wants is found by trying
+    verb = mine[k % len(mine)]
+    for n in (1, 2, 0, 8, 39):
+        msg = verb + bytes((k * 5 + j) % 256 for j in range(n))
+        try:
+            px.handle(msg, sender)
+            sh.see("foreign_verbs_fed_to_long_lived_handlers", f"{type(px).__name__}:{verb.decode()}:{n}-byte payload")
+            return
+        except Exception:  # noqa - wrong payload size for that verb: try the next
+            continue
+    sh.count("foreign_traffic_raised_not_judged")
+
 
 
 def check_message(sh, fams, D, name, fam, h, exp_inner, dec, sender, ids):
@@ -322,7 +379,11 @@ def check_message(sh, fams, D, name, fam, h, exp_inner, dec, sender, ids):
             px = PERSIST.get(cls)
             if px is None:
                 px = PERSIST[cls] = new_handler(cls)
+            foreign_traffic(sh, px, sender)
             try:
+                if not px.can_handle(inner, sender):
+                    sh.violation(f"C04:claim-reused:{verb}", f"a long-lived {cls.__name__} that has handled earlier messages no longer claims {verb}", w)
+                    continue
                 px.handle(inner, sender)
                 okp = bool(dec(px))
             except Exception as e:
@@ -360,6 +421,8 @@ def shard_framing(sh: Shard, seed, n):
 
     rx_long = D.GeckoPacketProtocolHandler()
     rx_long._socket = _Sock()
+    # a long-lived responder: carries its answer, takes its addressing from what it received last
+    responder = D.GeckoPacketProtocolHandler(content=b"APING\x00")
     id_pool = [(gen_id(r, r.choice(["ios", "and"])), gen_id(r, "spa")) for _ in range(3)]
     addr_pool = [("10.9.0.%d" % r.randrange(1, 255), r.randrange(1024, 65536)) for _ in range(3)] + [("10.9.0.7", 10022), ("10.9.0.7", 51000)]
     for i in range(n):
@@ -408,6 +471,16 @@ def shard_framing(sh: Shard, seed, n):
                 sh.violation("C04:reply-addressing:reused", f"reply built on a long-lived handler to {sender} is addressed to {tuple(lr.parms[0:2])}", w)
         except Exception as e:
             sh.violation("C04:frame-reused:raise", f"long-lived packet handler raised {e!r}", dict(w, exc=describe_exc(e)))
+        try:
+            responder.handle(wire, sender)
+            a1 = responder.send_bytes
+            a2 = responder.send_bytes
+            if a1 != frame(cli, spa, b"APING\x00") or a2 != a1 or tuple(responder.parms[0:2]) != sender:
+                sh.violation("C04:reply-addressing:responder", f"a long-lived packet handler carrying an answer, after a frame from {sender} src {spa} dst {cli}, sends {a1!r:.100} to {tuple(responder.parms[0:2])}", w)
+            else:
+                sh.count("responder_replies_addressed_back")
+        except Exception as e:
+            sh.violation("C04:frame-reused:raise", f"long-lived responding packet handler raised {e!r}", dict(w, exc=describe_exc(e)))
         # (d) a reply built from the decoded parms is addressed back with ids swapped
         reply = D.GeckoPingProtocolHandler.response(parms=rx.parms)
         rwire = reply.send_bytes
@@ -455,6 +528,11 @@ def shard_hello(sh: Shard, seed, n):
         cid = gen_id(r, r.choice(["ios", "and"]))
         one("HELLO-client", D.GeckoHelloProtocolHandler.client(cid), b"<HELLO>" + cid + b"</HELLO>", lambda h, cid=cid: h.client_identifier == cid and not h.was_broadcast_discovery)
         sid = gen_id(r, "spa")
+        if i % 4 == 3:
+            # not every spa identifier is SPA<mac>: anything that is not a client identifier,
+            # also one whose first letters resemble a client prefix in another case
+            sid = r.choice([b"ios", b"iOS", b"Ios", b"and", b"And", b"android-", b"Andromeda ", b"spa", b"X", b"io", b"an"]) + gen_id(r, "spa")[3:]
+            sh.count("spa_identifiers_not_of_the_usual_shape")
         style = r.random()
         if style < 0.4:
             name = "".join(r.choice("abcdefghijklmnopqrstuvwxyz ABC") for _ in range(r.randrange(1, 20)))
